@@ -36,6 +36,14 @@ def _dec_version(x, base):
     return int(v) if float(int(v)) == v and 0 <= v < 45 else BAD
 
 
+def _dec_all(arr, base):
+    """version carried by EVERY entry of a leaf: NAN if any entry is NaN, BAD if the entries disagree"""
+    vs = [_dec_version(x, base) for x in np.asarray(arr, dtype=np.float64).ravel()]
+    if any(v == NAN for v in vs):
+        return NAN
+    return vs[0] if all(v == vs[0] for v in vs) else BAD
+
+
 def _dec_mask(x, b, nbits):
     """x = (1/b) * sum 4^id  ->  sorted list of ids, None if it does not decode"""
     x = float(x)
@@ -76,6 +84,9 @@ def build(C, opt):
     npts, b = opt["npts"], opt["b"]
     nobs, bo = opt.get("nobs", 4), b
     fault, origin = C["fault"], C["origin"]
+    # partial: the trained leaves have TWO entries (both carry the version) and an injected gradient / update fault makes
+    # only the second entry NaN - "a NaN parameter" is any NaN entry, not a leaf that is NaN throughout
+    partial = bool(opt.get("partial"))
     POW4 = jnp.array([4.0 ** k for k in range(16)])
 
     class Net(eqx.Module):
@@ -101,12 +112,15 @@ def build(C, opt):
 
     poison = make_poison(fault)
 
-    u = PINN(mlp=Net(jnp.array([W0])), slice_solution=jnp.s_[:], eq_type="ODE", input_transform=lambda i, p: i,
+    u = PINN(mlp=Net(jnp.array([W0, W0] if partial else [W0])), slice_solution=jnp.s_[:], eq_type="ODE", input_transform=lambda i, p: i,
              output_transform=lambda i, o, p: o)
 
     class Eq(ODE):
         def equation(self, t, u, params):
             th = params.eq_params["theta"]
+            th_rest = None
+            if partial:
+                th, th_rest = th[0], th[1]
             ver = jax.lax.stop_gradient(jnp.round(TH0 - th))
             out = u(t, params)
             w = out[0]
@@ -114,18 +128,24 @@ def build(C, opt):
             if origin == "loss":
                 r = r + jnp.where(ver == fault, jnp.nan, 0.0)
             if origin == "grad_eq":
-                th = poison(th, ver)
+                if partial:
+                    r = r + 0.0 * poison(th_rest, ver)          # only the gradient of theta[1] becomes NaN
+                else:
+                    th = poison(th, ver)
             if origin == "grad_nn":
-                w = poison(w, ver)
+                if partial:
+                    r = r + 0.0 * poison(params.nn_params.w[1], ver)      # only the gradient of w[1] becomes NaN
+                else:
+                    w = poison(w, ver)
             nu = params.eq_params["nu"]  # optional batched parameter: 2^(8+k) or 0
             return jnp.stack([r + 0.0 * th + 0.0 * w, jnp.squeeze(nu) + 0.0 * r])
 
-    params = jinns.parameters.Params(nn_params=u.init_params(), eq_params={"theta": jnp.array(TH0), "nu": jnp.array(0.0)})
+    params = jinns.parameters.Params(nn_params=u.init_params(), eq_params={"theta": jnp.array([TH0, TH0] if partial else TH0), "nu": jnp.array(0.0)})
     # resumed runs start from a later version
     v0 = C.get("v0", 0)
     params = jax.tree.map(lambda x: x, params)
     params = eqx.tree_at(lambda p: (p.nn_params.w, p.eq_params["theta"]), params,
-                         (jnp.array([W0 - v0]), jnp.array(TH0 - v0)))
+                         (jnp.array([W0 - v0] * (2 if partial else 1)), jnp.array([TH0 - v0] * 2 if partial else TH0 - v0)))
     dk = jinns.parameters.DerivativeKeysODE.from_str(params=params, dyn_loss="both", initial_condition="nn_params",
                                                      observations="nn_params")
     import warnings
@@ -157,7 +177,8 @@ def build(C, opt):
             bad = (s == fault) if origin == "opt" else False
 
             def dec(x):   # -1 for every trained leaf; NaN gradients / the injected fault propagate
-                return jnp.where(jnp.isnan(x), jnp.nan, -jnp.ones_like(x)) + jnp.where(bad, jnp.nan, 0.0)
+                hit = (jnp.arange(x.size).reshape(x.shape) == x.size - 1) if (partial and x.size > 1) else True
+                return jnp.where(jnp.isnan(x), jnp.nan, -jnp.ones_like(x)) + jnp.where(bad & hit, jnp.nan, 0.0)
 
             upd = jax.tree.map(dec, g)
             upd = eqx.tree_at(lambda q: q.eq_params["nu"], upd, jnp.zeros_like(g.eq_params["nu"]))
@@ -187,7 +208,8 @@ def build(C, opt):
 
             def __call__(self, params):
                 new = eqx.tree_at(lambda m: m.k, self, self.k + 1)
-                return new, self.stop[self.k], params.nn_params.w[0], self.improve[self.k]
+                # the criterion is a function of the WHOLE network leaf (a NaN entry makes it NaN)
+                return new, self.stop[self.k], params.nn_params.w[0] + 0.0 * jnp.sum(params.nn_params.w), self.improve[self.k]
 
         validation = Scripted(call_every=C["ce"], improve=jnp.array(im), stop=jnp.array(st), k=jnp.array(0))
     elif C["vkind"] == "builtin":
@@ -208,7 +230,7 @@ def build(C, opt):
                 out = u(t, params)
                 w = out[0]
                 ver = jnp.round(W0 - jnp.where(jnp.isnan(w), 0.0, w)).astype(int)
-                q = TABLE[ver] + 0.0 * w             # NaN parameters -> NaN criterion
+                q = TABLE[ver] + 0.0 * w + 0.0 * jnp.sum(params.nn_params.w)            # NaN network parameters (any entry) -> NaN criterion
                 # residual components: batch tag 2^id and q * 2^12  (squares: 4^id, q^2 * 4^12)
                 return jnp.stack([out[1], q * 4096.0])
 
@@ -305,11 +327,9 @@ def project(P, C, out, n):
         hist.append(dict(ver=ver, t=[i for i in m if i < 8], p=[i - 8 for i in m if i >= 8], o=mo, nan=False,
                          sum_ok=bool(total[k] == dyn[k] + ic[k] + ob[k]) if decoded else bool(abs(total[k] - (dyn[k] + ic[k] + ob[k])) <= 1e-9 * abs(total[k]))))
     obs["hist"] = hist
-    w = float(np.asarray(params.nn_params.w)[0])
-    th = float(np.asarray(params.eq_params["theta"]))
-    vw, vt = _dec_version(w, W0), _dec_version(th, TH0)
+    vw, vt = _dec_all(params.nn_params.w, W0), _dec_all(params.eq_params["theta"], TH0)
     obs["params"] = (vw if vw == vt else BAD) if decoded else 0
-    obs["params_nan_free"] = not (math.isnan(w) or math.isnan(th))
+    obs["params_nan_free"] = not (bool(np.isnan(np.asarray(params.nn_params.w)).any()) or bool(np.isnan(np.asarray(params.eq_params["theta"])).any()))
     if decoded:
         obs["opt"] = int(opt_state)
     else:
@@ -318,9 +338,9 @@ def project(P, C, out, n):
     obs["tracked_nn"], obs["tracked_eq"] = [], []
     if stored is not None and decoded:
         if stored.eq_params is not None and stored.eq_params.get("theta") is not None:
-            obs["tracked_eq"] = [_dec_version(x, TH0) for x in np.asarray(stored.eq_params["theta"])]
+            obs["tracked_eq"] = [_dec_all(x, TH0) for x in np.asarray(stored.eq_params["theta"])]
         if stored.nn_params is not None and getattr(stored.nn_params, "w", None) is not None:
-            obs["tracked_nn"] = [_dec_version(x[0], W0) for x in np.asarray(stored.nn_params.w)]
+            obs["tracked_nn"] = [_dec_all(x, W0) for x in np.asarray(stored.nn_params.w)]
     if crit is None:
         obs["crit"] = []
         obs["best_nn"] = obs["best_eq"] = NAN
@@ -332,9 +352,7 @@ def project(P, C, out, n):
             obs["crit"] = [_dec_version(x, W0) for x in cv]
         else:
             obs["crit"] = [NAN if math.isnan(x) else (UNTOUCHED if x == 0.0 else (int(x * P["bv"]) if (x * P["bv"]) == int(x * P["bv"]) else BAD)) for x in cv]
-        bw = float(np.asarray(best.nn_params.w)[0])
-        bt = float(np.asarray(best.eq_params["theta"]))
-        obs["best_nn"], obs["best_eq"] = _dec_version(bw, W0), _dec_version(bt, TH0)
+        obs["best_nn"], obs["best_eq"] = _dec_all(best.nn_params.w, W0), _dec_all(best.eq_params["theta"], TH0)
     obs["gen_cur"] = int(gen.curr_time_idx)
     obs["gen_order"] = [int(round(float(t) * npts)) for t in np.asarray(gen.times)]
     return obs
